@@ -46,6 +46,9 @@ class Analysis:
     def __init__(self):
         self.present = set()
         self.possible = set()
+        # classes that may be reported at any line: consequences of a defect whose effect on scoping is
+        # not pinned down (a pattern variable that shadows a variable in scope)
+        self.any_line = set()
         self.degraded = False
 
     def add(self, cls, line, sure=True):
@@ -129,6 +132,8 @@ def analyse(src):
         if d["k"] != "rule":
             continue
         RuleAnalysis(an, d, symbols, sig, enums, lookup).run()
+    if any(c == "pattern-not-fresh" for c, _ in an.present):
+        an.any_line |= {"conflicting-types", "undetermined-type", "surjectivity", "occurs-once", "var-in-then"}
     if symbol_trouble:
         # rule-level consequences of symbol-level defects are not pinned down: keep only symbol-level
         # defects as certainly present
@@ -217,6 +222,7 @@ class RuleAnalysis:
         self.an, self.rule, self.symbols, self.sig, self.enums, self.lookup = an, rule, symbols, sig, enums, lookup
         self.bindings = []   # per binding id: list of occurrence lines
         self.fresh = 0
+        self.path_classes = []
 
     # -------------------------------------------------------------- scoped walk
     def run(self):
@@ -224,6 +230,28 @@ class RuleAnalysis:
         for occ in self.bindings:
             if len(occ) == 1:
                 self.an.add("occurs-once", occ[0])
+        # cross-path consequences of type conflicts (lines only)
+        parent = {}
+        def find(x):
+            while parent.get(x, x) != x:
+                x = parent[x]
+            return x
+        for members, _, _ in self.path_classes:
+            for m in members[1:]:
+                a, b = find(members[0]), find(m)
+                if a != b:
+                    parent[a] = b
+        types, lines = {}, {}
+        for members, tys, lns in self.path_classes:
+            if not members:
+                continue
+            r = find(members[0])
+            types.setdefault(r, set()).update(tys)
+            lines.setdefault(r, set()).update(lns)
+        for r, tys in types.items():
+            if len(tys) > 1:
+                for l in lines[r]:
+                    self.an.possible.add(("conflicting-types", l))
 
     def new_binding(self, name, scope, line):
         self.bindings.append([])
@@ -462,6 +490,13 @@ class RuleAnalysis:
 
     # -------------------------------------------------------------- end of path
     def end_of_path(self, g):
+        # remember which variable bindings share a class on this path, with the class's types and lines:
+        # element types are shared between the structures of all paths (they flow along the structure
+        # morphisms in both directions), so a conflict found on one path is also reported at terms that
+        # are merged with the conflicting element on another path
+        for r in set(g.find(n) for n in range(len(g.parent))):
+            members = [g.node_key[n][1] for n in range(len(g.parent)) if g.find(n) == r and g.node_key[n][0] == "v" and isinstance(g.node_key[n][1], int)]
+            self.path_classes.append((members, set(g.types.get(r, set())), set(g.lines.get(r, set()))))
         for r in set(g.find(n) for n in range(len(g.parent))):
             tys = g.types.get(r, set())
             if len(tys) > 1:
